@@ -177,6 +177,33 @@ def ob_tg_space(mode, timeout):
     )
 
 
+def ob_tg_own_span(timeout):
+    """the textgrid's own span (which may start before and end after every tier it holds, or
+    hold no tier at all) is lengthened by exactly d: start unchanged, end + d"""
+    names = ["s", "d", "H", "tl", "th", "s0", "e0"]
+
+    def pre(s, d, H, tl, th, s0, e0):
+        return ivs_wf_pre(tl, th, s0, e0) & (0.0 <= tl) & (th <= H) & within(0.0, H, s) & (H <= 1024.0) & (d > 0) & (d <= 1024.0)
+
+    def body(s, d, H, tl, th, s0, e0):
+        empty = Textgrid(0.0, H)
+        r0 = empty.insertSpace(s, d, "stretch")
+        if (r0.minTimestamp, r0.maxTimestamp) != (0.0, H + d) or len(r0.tiers) != 0:
+            return "textgrid without tiers: span is not [0, H+d]"
+        tg = Textgrid(0.0, H)
+        tg.addTier(IntervalTier("i", [Interval(s0, e0, "x")], tl, th))
+        tg.addTier(PointTier("p", [Point(s0, "q")], tl, th))
+        r = tg.insertSpace(s, d, "stretch")
+        if (r.minTimestamp, r.maxTimestamp) != (0.0, H + d):
+            return "textgrid span is not [start, end + d]"
+        for t in r.tiers:
+            if (t.minTimestamp, t.maxTimestamp) != (tl, th + d):
+                return "tier span is not [start, end + d]"
+        return True
+
+    return Ob("tgspace-own-span", F(*names), body, pre, fmode="real", timeout=timeout, funcs=FUNCS[:3], bounds="textgrid [0,H] holding tiers that span [tl,th] inside it, and a textgrid without tiers")
+
+
 def ob_roundtrip(k, mode, timeout, labels=LABELS, tag=""):
     """insertSpace(s,d,mode) ; eraseRegion(s,s+d,'truncate',doShrink) restores the
     label-at-every-time function and the span (stretch/split)."""
@@ -227,6 +254,7 @@ def obligations(tier):
         obs.append(ob_point_space(2, 60))
         obs.append(ob_tg_space("stretch", 180))
         obs.append(ob_tg_space("error", 180))
+        obs.append(ob_tg_own_span(200))
         for mode in ("stretch", "split"):
             obs.append(ob_roundtrip(2, mode, 300))
         obs.append(ob_roundtrip(3, "stretch", 600, labels=["x", "x", "y"], tag="-xxy"))
@@ -237,6 +265,7 @@ def obligations(tier):
             for k in (0, 1, 2, 3):
                 obs.append(ob_interval_space(k, mode, 900))
             obs.append(ob_tg_space(mode, 900))
+        obs.append(ob_tg_own_span(900))
         for k in (0, 1, 2, 3):
             obs.append(ob_point_space(k, 600))
         for mode in ("stretch", "split"):
